@@ -17,14 +17,43 @@ let op_epoch_frames t =
   | Some v -> let h = hex_of_bytes (M.le_enc (nat_of_int 8) v) in "epoch_frames " ^ h ^ " " ^ h ^ " " ^ h
   | None -> "epoch_frames untranslated"
 
-let op_tagname t = "tagname " ^ ocaml_string (M.get_tag_name (z_of_string t.(1)))
+let op_tagname t =
+  let z = z_of_string t.(1) in
+  "tagname " ^ ocaml_string (M.get_tag_name z) ^ " ## tagname " ^ ocaml_string (M.spec_tag_name z)
+
+(* every z in [lo,hi] whose name differs from the name of INT_MIN (the default) *)
+let op_tagname_range t =
+  let lo = int_of_string t.(1) and hi = int_of_string t.(2) in
+  let line f =
+    let d = ocaml_string (f (z_of_int (-2147483648))) in
+    let b = Buffer.create 4096 in
+    Buffer.add_string b ("tagname_range default=" ^ d);
+    (* names can only differ from the default on 0..255: outside, both model and spec are proved constant *)
+    for z = max lo 0 to min hi 255 do
+      let n = ocaml_string (f (z_of_int z)) in
+      if n <> d then Buffer.add_string b (sp " %d=%s" z n)
+    done;
+    Buffer.contents b in
+  line M.get_tag_name ^ " ## " ^ line M.spec_tag_name
+
+(* C19 decision procedures: the offending enumerators themselves *)
+let op_enumcheck _ =
+  let mm = M.all_mismatches and dd = M.all_dups in
+  let cov = S.concat "," (List.map (fun ((k, pub), ieee) ->
+      sp "%s:%d/%d" (S.map (fun c -> if c = ' ' then '_' else c) (ocaml_string k)) (int_of_nat (M.covered pub ieee)) (List.length pub)) M.kinds) in
+  "enumcheck mismatches=[" ^ S.concat ";" (List.map (fun ((n, v), v') ->
+      sp "%s=%s(ieee:%s)" (ocaml_string n) (string_of_z v) (string_of_z v')) mm) ^ "] dups=[" ^
+  S.concat ";" (List.map (fun ((a, b), v) -> sp "%s=%s=%s" (ocaml_string a) (ocaml_string b) (string_of_z v)) dd) ^
+  "] covered=" ^ cov
 
 let ops : (S.t * (S.t array -> S.t)) list = [
   "epoch", op_epoch;
   "epoch2", op_epoch2;
   "epoch_frames", op_epoch_frames;
   "tagname", op_tagname;
-] @ Ops_more.ops
+  "tagname_range", op_tagname_range;
+  "enumcheck", op_enumcheck;
+] @ Ops_tags.ops @ Ops_more.ops
 
 let () =
   let tbl = Hashtbl.create 64 in
